@@ -277,6 +277,7 @@ class C18(CheckBase):
         gnss.open = fs.open
         fs.now = lambda: (clock.t - _dt.datetime(1970, 1, 1)).total_seconds()    # time stamps: read without a clock-read event
         saved_os = fs.install_os_seam(gnss)
+        undo_global = fs.install_global_seam()
         saved_clock = install_clock_seam(gnss, clock)
         if not saved_clock:
             raise kernel.HarnessError('clock seam not found: geodepy.gnss has no module-level reference to datetime / time')
@@ -306,6 +307,7 @@ class C18(CheckBase):
             gnss.open = open
             restore_seam(gnss, saved_clock)
             restore_seam(gnss, saved_os)
+            undo_global()
         for t in clock.reads:
             clockset['sod'].add(t.hour * 3600 + t.minute * 60 + t.second)
             clockset['days'].add(t.date().isoformat())
